@@ -315,6 +315,150 @@ def generate_dispatch(repo):
                                  shortcuts=len(shortcuts), swap=swap, pattern=pat1 and pat2)
 
 
+def _match_brace(text, i):
+    """index of the brace matching text[i] == '{'"""
+    depth = 0
+    for k in range(i, len(text)):
+        if text[k] == "{":
+            depth += 1
+        elif text[k] == "}":
+            depth -= 1
+            if depth == 0:
+                return k
+    raise ParseError("unbalanced braces")
+
+
+def _translate_body(name, body, arrays, sig, outspec):
+    """straight-line loop body of reb_calculate_acceleration_var -> Lean kernel.
+    arrays: {c array name: {index: lean prefix}}; outspec: list of (lean field name, c target prefix, index)"""
+    body = re.sub(r"if\s*\([^;{}]*\)\s*continue\s*;", "", body)
+    body = re.sub(r"if\s*\([^{};]*\)\s*\{", "", body)          # guards (testparticle_type / N_active): the loop structure is modelled by hand
+    body = body.replace("}", "")
+    body = re.sub(r"(\w+)\[(\w+)\]\.(\w+)", r"\1__\2__\3", body)
+    stmts = [" ".join(st.split()) for st in body.split(";")]
+    stmts = [st for st in stmts if st]
+    defined = set()
+    acc = {}
+    lines = []
+
+    def resolve(v):
+        if v == "G":
+            return "v_G"
+        if v == "softening2":
+            return "v_soft2"
+        m = re.match(r"(\w+?)__(\w+)__(\w+)$", v)
+        if m:
+            arr, idx, fld = m.groups()
+            if arr in arrays and idx in arrays[arr] and fld in ("x", "y", "z", "m"):
+                return "%s.%s" % (arrays[arr][idx], fld)
+            raise ParseError("%s: unknown array access %s" % (name, v))
+        if v in defined:
+            return "l_" + v
+        raise ParseError("%s: unknown identifier %s" % (name, v))
+    nst = 0
+    for st in stmts:
+        m = re.match(r"(?:const )?double (\w+)\s*=\s*(.+)$", st)
+        if m:
+            e = parse_expr(m.group(2), resolve)
+            defined.add(m.group(1))
+            lines.append("  let l_%s : K := %s" % (m.group(1), emit_sq(e)))
+            nst += 1
+            continue
+        m = re.match(r"(\w+)\s*\+=\s*(.+)$", st)
+        if m and m.group(1) in defined:
+            e = parse_expr(m.group(2), resolve)
+            lines.append("  let l_%s : K := (l_%s + %s)" % (m.group(1), m.group(1), emit_sq(e)))
+            nst += 1
+            continue
+        m = re.match(r"(\w+)__(\w+)__(a[xyz])\s*([-+])=\s*(.+)$", st)
+        if m:
+            arr, idx, fld, sign, rhs = m.groups()
+            e = parse_expr(rhs, resolve)
+            key = (arr, idx, fld)
+            if key in acc:
+                raise ParseError("%s: accumulator %s updated twice" % (name, key))
+            acc[key] = emit_sq(e) if sign == "+" else "(-%s)" % emit_sq(e)
+            nst += 1
+            continue
+        raise ParseError("%s: statement not understood: %s" % (name, st))
+    outs = []
+    for (arr, idx) in outspec:
+        comps = []
+        for fld in ("ax", "ay", "az"):
+            if (arr, idx, fld) not in acc:
+                raise ParseError("%s: accumulator %s[%s].%s missing" % (name, arr, idx, fld))
+            comps.append(acc[(arr, idx, fld)])
+        outs.append("(⟨%s,\n    %s,\n    %s⟩ : V3 K)" % tuple(comps))
+    extra = set(acc) - {(a, i, f) for (a, i) in outspec for f in ("ax", "ay", "az")}
+    if extra:
+        raise ParseError("%s: unexpected accumulators %s" % (name, sorted(extra)))
+    ret = outs[0] if len(outs) == 1 else "(%s,\n   %s)" % (outs[0], outs[1])
+    rtype = "V3 K" if len(outs) == 1 else "V3 K × V3 K"
+    text = "def %s (sq : K → K) (v_G v_soft2 : K) %s : %s :=\n%s\n  %s" % (name, sig, rtype, "\n".join(lines), ret)
+    return text, nst
+
+
+def emit_sq(e):
+    """like emit, but sqrt is the explicit parameter `sq` and there are no other libm calls"""
+    k = e[0]
+    if k == "num":
+        return lit(e[1])
+    if k == "var":
+        return e[1]
+    if k == "neg":
+        return "(-%s)" % emit_sq(e[1])
+    if k == "call":
+        if e[1] != "sqrt":
+            raise ParseError("unexpected function in gravity kernel: " + e[1])
+        return "(sq %s)" % emit_sq(e[2])
+    if k == "bin":
+        return "(%s %s %s)" % (emit_sq(e[2]), e[1], emit_sq(e[3]))
+    raise ParseError(str(e))
+
+
+def generate_varloops(repo):
+    """src/gravity.c reb_calculate_acceleration_var -> lean/RV/Gen/C16VarLoops.lean: the five loop bodies as Lean kernels"""
+    src = strip_comments(open(os.path.join(repo, "src", "gravity.c")).read())
+    i0 = src.index("void reb_calculate_acceleration_var(")
+    fn = src[i0:_match_brace(src, src.index("{", i0)) + 1]
+    heads = [m for m in re.finditer(r"for\s*\(\s*int\s+j\s*=\s*([^;]+);\s*j\s*<\s*([^;]+);\s*j\+\+\s*\)\s*\{", fn)]
+    bodies = []
+    for m in heads:
+        o = m.end() - 1
+        bodies.append((m.group(1).strip(), m.group(2).strip(), fn[o + 1:_match_brace(fn, o)]))
+    if len(bodies) != 5:
+        raise ParseError("gravity.c: expected 5 inner j-loops in reb_calculate_acceleration_var, found %d" % len(bodies))
+    heads_txt = ["j=%s; j<%s" % (b[0], b[1]) for b in bodies]
+    expect = ["j=startj; j<i", "j=startj; j<_N_active", "j=0; j<_N_real", "j=i+1; j<_N_real", "j=0; j<_N_real"]
+    A1 = {"particles": {"i": "pi", "j": "pj"}, "particles_var1": {"i": "di", "j": "dj"}}
+    A1t = {"particles": {"i": "pi", "j": "pj"}, "particles_var1": {"0": "d0"}}
+    A2 = {"particles": {"i": "pi.p", "j": "pj.p"}, "particles_var2": {"i": "pi.dd", "j": "pj.dd"},
+          "particles_var1a": {"i": "pi.da", "j": "pj.da"}, "particles_var1b": {"i": "pi.db", "j": "pj.db"}}
+    A2t = {"particles": {"i": "pi", "j": "pj"}, "particles_var2": {"0": "dd0"}, "particles_var1a": {"0": "da0"}, "particles_var1b": {"0": "db0"}}
+    out = ["import RV.Model.Var",
+           "/- GENERATED by rv/extract_c16.py from src/gravity.c (reb_calculate_acceleration_var) — do not edit.",
+           "   The bodies of the five inner loops as Lean kernels, same operation order; `-=` is `+= -(…)`. -/",
+           "set_option linter.unusedVariables false", "set_option maxRecDepth 4000",
+           "namespace RV.Gen.C16VarLoops", "open RV RV.Var", "variable {K : Type} [Scalar K]", ""]
+    total = 0
+    specs = [("var1Body", bodies[0][2], A1, "(pi pj di dj : GP K)", [("particles_var1", "i"), ("particles_var1", "j")]),
+             ("var1TestBody", bodies[1][2], A1, "(pi pj di dj : GP K)", [("particles_var1", "i"), ("particles_var1", "j")]),
+             ("tpVar1Body", bodies[2][2], A1t, "(pi pj d0 : GP K)", [("particles_var1", "0")]),
+             ("var2Body", bodies[3][2], A2, "(pi pj : RV2 K)", [("particles_var2", "i"), ("particles_var2", "j")]),
+             ("tpVar2Body", bodies[4][2], A2t, "(pi pj dd0 da0 db0 : GP K)", [("particles_var2", "0")])]
+    for name, body, arrs, sig, outspec in specs:
+        text, nst = _translate_body(name, body, arrs, sig, outspec)
+        out += [text, ""]
+        total += nst
+    q = lambda xs: "[" + ", ".join('"%s"' % x for x in xs) + "]"
+    out.append("/-- the five `for (int j=…; j<…; j++)` headers in source order -/")
+    out.append("def loopHeads : List String := " + q(heads_txt))
+    out.append("def expectedHeads : List String := " + q(expect))
+    out.append("def statementCount : Nat := %d" % total)
+    out.append("end RV.Gen.C16VarLoops")
+    return "\n".join(out) + "\n", dict(loops=len(bodies), statements=total, heads=heads_txt)
+
+
 def generate_rescale(repo):
     """src/rebound.h (struct reb_integrator_ias15) + src/tools.c (reb_simulation_rescale_var, IAS15 branch) +
     src/integrator_ias15.c -> lean/RV/Gen/C16Rescale.lean: the per-particle arrays IAS15 owns, the arrays rescale_var divides
